@@ -4,12 +4,12 @@
 //
 //	cd /verif/harness && . /verif/env.sh && GOROOT=$SHADOW_GOROOT $SHADOW_GOROOT/bin/go run -tags "verif verifshadow" ./cmd/c01/repro
 //
-// 1. `pdfcpu optimize - out.pdf` (out.pdf exists): a plain panic inside api.Optimize (injected at the first
-//    read of the spooled stdin copy) unwinds through `finalize(api.Optimize(rs, w, conf))`: finalize never
-//    runs, Dispatch turns the panic into an error, and .out.pdf.tmp-* (and tmp/pdfcpu-stdin-*.pdf) stay.
-// 2. `pdfcpu import out.pdf - img2.jpg` (out.pdf exists, image on stdin): a plain panic inside
-//    api.ImportImages reaches importImagesToFile's deferred finalizer with err == nil: the partially
-//    written staging file is renamed over out.pdf.
+//  1. `pdfcpu optimize - out.pdf` (out.pdf exists): a plain panic inside api.Optimize (injected at the first
+//     read of the spooled stdin copy) unwinds through `finalize(api.Optimize(rs, w, conf))`: finalize never
+//     runs, Dispatch turns the panic into an error, and .out.pdf.tmp-* (and tmp/pdfcpu-stdin-*.pdf) stay.
+//  2. `pdfcpu import out.pdf - img2.jpg` (out.pdf exists, image on stdin): a plain panic inside
+//     api.ImportImages reaches importImagesToFile's deferred finalizer with err == nil: the partially
+//     written staging file is renamed over out.pdf.
 package main
 
 import (
